@@ -139,7 +139,7 @@ func GenLayout(allowComments bool) *rapid.Generator[Layout] {
 			GtEscape:      pctGen().Draw(t, "gtEscape"),
 			CDATA:         pctGen().Draw(t, "cdata"),
 			Comments:      pctGen().Draw(t, "comments"),
-			Decl:          rapid.IntRange(0, 4).Draw(t, "decl"),
+			Decl:          rapid.IntRange(0, 6).Draw(t, "decl"),
 			BOM:           rapid.IntRange(0, 4).Draw(t, "bom") == 0,
 			OuterWS:       rapid.Bool().Draw(t, "outerWS"),
 			OuterComment:  rapid.IntRange(0, 3).Draw(t, "outerComment") == 0,
